@@ -56,6 +56,8 @@ ASSUMPTIONS = [
     'a file outside the root"); other OSError subclasses are always acceptable',
     'RawFileSystem() accepts a root that does not exist yet (no exception on the unchanged tree); the root the caller '
     'named stays the ground truth when the folder is created afterwards',
+    'a relative root denotes the directory it names when the filesystem is created; the working directory may change '
+    'afterwards (changed and restored inside the case, shards are separate processes)',
     'twin filesystems (constrain_path=False etc.) may legitimately read outside the root; only the constrained '
     'filesystem under test is judged',
     'packlist.unify_path is exercised and classified in the histogram only',
@@ -82,13 +84,16 @@ IN_ROOT_FILES = [
     '@r/inner.txt', '@r2/x.txt', '@r2/secret.txt', 'sub/@r/d.txt',
     # names that contain a backslash ON DISK (legal on POSIX).  walk_folder() converts '\\' to '/' in the names it
     # reports, so the first three get handle names that point out of the root ('../notes.txt', '.../<root>2/notes.txt').
+    # legal names with consecutive dots (only the components '.' and '..' are special)
+    'wait...wav', 'sub/notes..old.txt', 'v1..v2/x.txt', '..a', 'a..', '.../deep.txt',
     '..\\notes.txt', 'sub/..\\..\\@r2\\notes.txt', 'dir\\..\\..\\@r2/notes.txt', 'a\\b.txt', 'sub\\b.txt',
 ]
 SIBLING_FILES = ['secret.txt', 'sub/b.txt', 'a.txt', 'notes.txt']
 
 # Query segment symbols.
 SEG_DOTS = ['..', '..', '..', '.', '']
-SEG_INSIDE = ['a.txt', 'secret.txt', 'sub', 'b.txt', 'deep', 'c.txt', '@r', 'inner.txt', 'x.txt', 'd.txt', 'notes.txt', 'dir']
+SEG_INSIDE = ['a.txt', 'secret.txt', 'sub', 'b.txt', 'deep', 'c.txt', '@r', 'inner.txt', 'x.txt', 'd.txt', 'notes.txt', 'dir',
+              'wait...wav', 'notes..old.txt', 'v1..v2', '..a', 'a..', '...', 'deep.txt']
 SEG_SIB = ['@r2', '@r_old', '@r.bak', 'other', '@r2.txt', '@rl', '@ru', '@rs', '@rl2']
 SEG_ABOVE = ['@base', 'base.txt', 'top.txt', 'missing', '@basev']
 SEG_ABS = ['@ABS_ROOT', '@ABS_BASE', '@ABS_SIB2', '@ABS_SIBOLD', '@ABS_SCRATCH', '@ABS_SLASH']
@@ -173,6 +178,9 @@ def case_strategy(chain: bool):
                                st.lists(st.sampled_from(TWIN_KINDS), min_size=1, max_size=2)),
             'twin_mode': st.sampled_from(['first', 'interleaved', 'interleaved', 'after']),
             'construct': st.sampled_from(['after', 'after', 'before_root', 'before_tree']),
+            # 'move': the working directory is <base> while the filesystems are made and another project afterwards
+            'cwd': st.sampled_from(['keep', 'keep', 'move']),
+            'maker': st.sampled_from(['ctor', 'ctor', 'get_filesystem']),
         }
         if chain:
             d['prefix'] = st.sampled_from(CHAIN_PREFIXES)
@@ -262,6 +270,10 @@ class Tree:
         self.put(self.base + '/base.txt')
         self.put(self.base + '/notes.txt')
         self.put(self.base + '/' + self.root_name + '2.txt')
+        # another project folder holding a directory with the root's relative name (reached if a relative root is
+        # re-anchored to a later working directory)
+        for rel in ('a.txt', 'secret.txt', 'sub/b.txt', 'wait...wav'):
+            self.put(self.scratch + '/projB/' + self.root_name + '/' + rel)
         for sib in dict.fromkeys([self.root_name + s for s in SIB_SUFFIXES] + ['other'] + self.case_siblings):
             for rel in SIBLING_FILES:
                 self.put(self.base + '/' + sib + '/' + rel)
@@ -433,6 +445,17 @@ class Judge:
 def run_ops(ctx, tree: Tree, fs, q: str, readings: list[Reading], via: str, ops, via_chain: bool = False) -> None:
     from srctools.filesys import File, RootEscapeError
     j = Judge(ctx, tree, q, readings, via)
+    # A name that denotes an existing file inside the root (one reading, nothing ambiguous) must be served.
+    serve = (len(readings) == 1 and readings[0].inside and not readings[0].double_slash
+             and readings[0].real in tree.tokens)
+    if serve and any('..' in c and c != '..' for c in q.replace('\\', '/').split('/')):
+        ctx.label('name:consecutive_dots_inside')
+
+    def unserved(op: str, outcome: str) -> None:
+        if serve:
+            ctx.fail('inside_not_served', f'{op}: {outcome} for a name that denotes the existing in-root file '
+                     f'{readings[0].real!r}; {j.describe()}', **j.facts(op))
+
     if j.all_outside:
         ctx.label('target:outside')
     elif j.all_inside:
@@ -449,6 +472,7 @@ def run_ops(ctx, tree: Tree, fs, q: str, readings: list[Reading], via: str, ops,
             j.rejected(op)
         except OSError as exc:
             j.not_rejected(op, type(exc).__name__)
+            unserved(op, type(exc).__name__)
         else:
             with fobj:
                 name = str(getattr(fobj, 'name', ''))
@@ -466,6 +490,8 @@ def run_ops(ctx, tree: Tree, fs, q: str, readings: list[Reading], via: str, ops,
             j.rejected('in')
         else:
             j.not_rejected('in', f'returned {res!r}')
+            if not res:
+                unserved('in', 'False')
             if res:
                 j.exists_true('in')
                 ctx.label('inside_hit:in')
@@ -477,6 +503,7 @@ def run_ops(ctx, tree: Tree, fs, q: str, readings: list[Reading], via: str, ops,
             j.rejected('getitem')
         except FileNotFoundError:
             j.not_rejected('getitem', 'FileNotFoundError')
+            unserved('getitem', 'FileNotFoundError')
         else:
             ctx.check(isinstance(f, File), 'type', f'fs[{q!r}] returned {f!r}')
             j.not_rejected('getitem', f'returned File {f.path!r}')
@@ -629,7 +656,7 @@ def classify_unify(ctx, tree: Tree, q: str, readings: list[Reading]) -> None:
 
 def make_root_arg(tree: Tree, form: str):
     """The spelling of the root handed to RawFileSystem.  Relative forms are relative to the process's current
-    directory, which is never changed (no process-global state)."""
+    directory at construction time (the case may move it to <base> first and elsewhere afterwards)."""
     import pathlib
     root, name = tree.root, tree.root_name
     rel = os.path.relpath(root, os.getcwd())
@@ -649,7 +676,8 @@ def make_root_arg(tree: Tree, form: str):
 
 
 def execute_generic(desc, ctx, mode: str) -> None:
-    from srctools.filesys import FileSystemChain, RawFileSystem
+    from srctools.filesys import FileSystemChain, RawFileSystem, get_filesystem
+    old_cwd = os.getcwd()
     tree = Tree(desc)
     try:
         # order of operations: the filesystem objects may be made before the folders they name exist
@@ -662,7 +690,19 @@ def execute_generic(desc, ctx, mode: str) -> None:
             tree.populate_root(desc)
         elif construct == 'before_root':
             tree.populate_outside()
-        fs = RawFileSystem(make_root_arg(tree, desc['root_form']))
+        move_cwd = desc.get('cwd', 'keep') == 'move'
+        if move_cwd:
+            # (restored in the finally below; every shard is its own process)
+            os.makedirs(tree.base, exist_ok=True)
+            os.chdir(tree.base)
+        root_arg = make_root_arg(tree, desc['root_form'])
+        # get_filesystem() takes a str naming an existing directory (e.g. '<root>/sub/..' needs 'sub' to exist)
+        if desc.get('maker') == 'get_filesystem' and isinstance(root_arg, str) and os.path.isdir(root_arg):
+            fs = get_filesystem(root_arg)
+            ctx.check(type(fs) is RawFileSystem, 'type', f'get_filesystem() of a directory gave {fs!r}')
+            ctx.label('maker:get_filesystem')
+        else:
+            fs = RawFileSystem(make_root_arg(tree, desc['root_form']))
         ctx.check(fs.constrain_path is True, 'default_constrained', 'constrain_path is not on by default')
         ctx.check(lexical(fs.path) == tree.root, 'root_path', f'fs.path={fs.path!r}, root given as {desc["root_form"]} '
                   f'of {tree.root!r}')
@@ -712,6 +752,11 @@ def execute_generic(desc, ctx, mode: str) -> None:
         if construct != 'after':
             tree.populate_root(desc)
         built = [build_query(tree, qd) for qd in desc['queries']]
+        if move_cwd:
+            os.chdir(tree.scratch + '/projB')
+            ctx.label('cwd:moved')
+            if desc['root_form'] in ('rel', 'rel_slash', 'rel_dot'):
+                ctx.label('cwd:moved_with_relative_root')
         if twin_mode == 'first':
             for t in twins:
                 for q in built:
@@ -772,6 +817,7 @@ def execute_generic(desc, ctx, mode: str) -> None:
             run_ops(ctx, tree, fs, '', readings_direct(tree, ''), 'raw', ('walk_folder',))
         ctx.nontrivial(any_outside)
     finally:
+        os.chdir(old_cwd)
         tree.remove()
 
 
@@ -787,7 +833,7 @@ def execute_chain(desc, ctx):
     execute_generic(desc, ctx, 'chain')
 
 
-_ROUTES = ('disk_name:backslash_dotdot', 'handle:rejected', 'handle:opened', 'construct:before_root_exists', 'construct:before_root', 'construct:before_tree', 'construct:after',
+_ROUTES = ('cwd:moved_with_relative_root', 'maker:get_filesystem', 'name:consecutive_dots_inside', 'disk_name:backslash_dotdot', 'handle:rejected', 'handle:opened', 'construct:before_root_exists', 'construct:before_root', 'construct:before_tree', 'construct:after',
            'escape:case_variant_sibling', 'escape:case_variant_ancestor', 'twin:unconstrained_first', 'twin:none', 'twin:constrained2', 'twin:respelled', 'route:dotdot:sibling_ext', 'route:abs:sibling_ext', 'route:dotdot:ancestor', 'route:dotdot:base_entry',
            'route:dotdot:sibling_other', 'route:with_backslash', 'target:inside', 'target:outside')
 
